@@ -40,6 +40,7 @@ PLAN = [
     ("opes", 4, 30, 12, 24),
     ("pabf", 2, 16, 10, 24),
     ("mts", 6, 60, 12, 30),
+    ("ti", 4, 40, 12, 30),
 ]
 
 
@@ -60,7 +61,7 @@ def signature(c, f):
             st.append("off-schedule")
             col = "all"
         else:
-            col = None
+            col = "all" if st else None
     if c["fam"] == "mts" and c.get("mts_extended") and f.get("K") is not None:
         # an extended-Lagrangian variable with timeStepFactor n in a job that starts between two multiples of n:
         # a state written before the variable was first computed holds an extended coordinate that was never set
@@ -97,6 +98,7 @@ def gen_cases(r, quick, only=None):
             if not (c.get("needs_prefix") or c.get("prefix_per_run")):
                 c["auto_Ks"] = sorted(r2.sample(range(1, T), ne))
             c["boundary_Ks"] = sorted(r2.sample(range(T), ne))
+            c["buffer_Ks"] = [(K, r2.choice(c["fmts"])) for K in r2.sample(c["Ks"], 2)]
             cases.append(c)
     return cases
 
